@@ -45,6 +45,8 @@ func (m *monC11) OnStep(r *Runner, st *Step) {
 	// flows of the staking denom in this step
 	minted, burned := map[string]sdkmath.Int{}, map[string]sdkmath.Int{}
 	fromDistr, outOfModule := sdkmath.ZeroInt(), sdkmath.ZeroInt()
+	// rewards that can be credited to nobody go straight back to the fee collector
+	returnable := returnedRewards(r, st.Events).AmountOf(BondDenom)
 	for _, f := range fl {
 		a := f.Coins.AmountOf(BondDenom)
 		if a.IsZero() {
@@ -70,7 +72,10 @@ func (m *monC11) OnStep(r *Runner, st *Step) {
 			if f.From == mod {
 				outOfModule = outOfModule.Add(a)
 				// (c) minted tokens may only leave custody as forwarded rewards
-				if f.To != w.RewardsAddr.String() {
+				if f.To == w.FeeCollector.String() && a.LTE(returnable) {
+					returnable = returnable.Sub(a)
+					r.Probe("c11_rewards_returned_to_fee_collector")
+				} else if f.To != w.RewardsAddr.String() {
 					r.Eval("C11.c")
 					r.Violate("C11.c", "custody-pays-staking-denom", fmt.Sprintf("%s %s transferred from the custody account to %s", a, BondDenom, short(f.To)))
 					return
